@@ -117,7 +117,7 @@ Lemma scan_file_spec : forall P hi max f A D p size acc,
     = (fst (fst (take_scan hi max size acc (map row_entry (skipn p A)))),
        snd (fst (take_scan hi max size acc (map row_entry (skipn p A)))),
        snd (take_scan hi max size acc (map row_entry (skipn p A))), f')
-    /\ fview P f' A D.
+    /\ fview P f' A D /\ f_rows f' = f_rows f.
 Proof.
   intros P hi max f A D p size acc V Hp Hhi. unfold scan_file.
   rewrite (fv_asc _ _ _ _ V), Nat2N.id, skipn_app_le by exact Hp.
@@ -128,7 +128,7 @@ Proof.
   { intro E. assert (p = 0)%nat by lia. subst p. cbn [skipn]. exact (fv_c0 _ _ _ _ V). }
   destruct (scan_rows_spec P (f_size f) hi max (skipn p A) D (N.of_nat p) size acc (f_c0 f) Hhi HG (fv_dead _ _ _ _ V) Hc)
     as (c0' & Hs & Hc0').
-  rewrite Hs. eexists. split; [reflexivity|].
+  rewrite Hs. eexists. split; [reflexivity|]. split; [|reflexivity].
   apply set_c0_view; [exact V|]. destruct Hc0' as [->|[E (r & t & Hr & ->)]]; [now left|right].
   assert (p = 0)%nat by lia. subst p. cbn [skipn] in Hr. eauto.
 Qed.
@@ -145,24 +145,26 @@ Lemma scan_files_spec : forall P hi max fs i size acc,
     = (fst (fst (take_scan hi max size acc (concat (map file_entries fs)))),
        snd (fst (take_scan hi max size acc (concat (map file_entries fs)))),
        snd (take_scan hi max size acc (concat (map file_entries fs))), fs')
-    /\ chain P i fs' /\ map file_entries fs' = map file_entries fs.
+    /\ chain P i fs' /\ map file_entries fs' = map file_entries fs /\ map f_rows fs' = map f_rows fs.
 Proof.
   intros P hi max fs. induction fs as [|f t IH]; intros i size acc Hc Hhi.
   - exists []. cbn. repeat split.
   - cbn [chain] in Hc. destruct Hc as (A & D & V & HA & C & R).
-    destruct (scan_file_spec P hi max f A D 0%nat size acc V (Nat.le_0_l _) Hhi) as (f' & Hs & V').
+    destruct (scan_file_spec P hi max f A D 0%nat size acc V (Nat.le_0_l _) Hhi) as (f' & Hs & V' & R').
     cbn [skipn N.of_nat] in Hs. cbn [scan_files map concat]. rewrite Hs.
     rewrite (fv_entries P f A D V). rewrite take_scan_app.
     destruct (take_scan hi max size acc (map row_entry A)) as [[st sz] ac] eqn:ET. cbn [fst snd].
     assert (Hfe : file_entries f' = file_entries f) by (rewrite (fv_entries P f' A D V'), (fv_entries P f A D V); reflexivity).
     destruct st.
-    + exists (f' :: t). cbn [fst snd]. split; [reflexivity|]. split.
+    + exists (f' :: t). cbn [fst snd]. split; [reflexivity|]. split; [|split].
       * cbn [chain]. exists A, D. auto.
       * cbn [map]. rewrite (fv_entries P f' A D V'). try rewrite (fv_entries P f A D V). reflexivity.
-    + destruct (IH (i + N.of_nat (length A)) sz ac R Hhi) as (t' & Ht & Rt & Mt).
-      rewrite Ht. exists (f' :: t'). split; [reflexivity|]. split.
+      * cbn [map]. now rewrite R'.
+    + destruct (IH (i + N.of_nat (length A)) sz ac R Hhi) as (t' & Ht & Rt & Mt & Rw).
+      rewrite Ht. exists (f' :: t'). split; [reflexivity|]. split; [|split].
       * cbn [chain]. exists A, D. auto.
       * cbn [map]. rewrite (fv_entries P f' A D V'), Mt. try rewrite (fv_entries P f A D V). reflexivity.
+      * cbn [map]. now rewrite R', Rw.
 Qed.
 
 Lemma chain_locate : forall P fs i0 lo,
@@ -191,14 +193,24 @@ Proof. reflexivity. Qed.
 Lemma flen_map : forall a b, map file_entries a = map file_entries b -> flen a = flen b.
 Proof. intros a b H. unfold flen. now rewrite H. Qed.
 
+Lemma all_live_rows : forall f g, f_rows g = f_rows f -> all_live f -> all_live g.
+Proof. intros f g H. unfold all_live. now rewrite H. Qed.
+
+Lemma Forall_all_live_rows : forall a b, map f_rows a = map f_rows b -> Forall all_live b -> Forall all_live a.
+Proof.
+  induction a as [|x a IH]; intros [|y b] H Hb; try discriminate; [constructor|].
+  cbn [map] in H. injection H as H1 H2. inversion Hb; subst. constructor; [now apply (all_live_rows y)|now apply (IH b)].
+Qed.
+
 Lemma dinv_replace : forall P i0 d Ac fs' c',
-  dinv P i0 d Ac -> chain P i0 fs' -> map file_entries fs' = map file_entries (d_files d) -> fview P c' Ac [] ->
+  dinv P i0 d Ac -> chain P i0 fs' -> map file_entries fs' = map file_entries (d_files d) ->
+  map f_rows fs' = map f_rows (d_files d) -> fview P c' Ac [] ->
   dinv P i0 (mkdisk fs' c' (d_next d) (d_meta d)) Ac
   /\ log_of (mkdisk fs' c' (d_next d) (d_meta d)) = log_of d.
 Proof.
-  intros P i0 d Ac fs' c' (H1 & Hch & V & C & Hn & He) Hch' Hm V'. split.
+  intros P i0 d Ac fs' c' (H1 & Hch & V & C & Hn & HKl) Hch' Hm Hr V'. split.
   - unfold dinv. cbn [d_files d_cur d_next]. rewrite (flen_map _ _ Hm). repeat (split; [assumption|]).
-    intro E. specialize (He E). rewrite He in Hm. destruct fs'; [reflexivity|discriminate].
+    intro E. apply (Forall_all_live_rows _ _ Hr). now apply HKl.
   - rewrite !log_of_eq. cbn [d_files d_cur]. rewrite Hm, (fv_entries P c' Ac [] V'), (fv_entries P (d_cur d) Ac [] V). reflexivity.
 Qed.
 
@@ -215,7 +227,7 @@ Lemma all_entries_spec : forall P lo hi max d i0 Ac,
     /\ dinv P i0 d' Ac /\ log_of d' = log_of d /\ d_meta d' = d_meta d /\ d_next d' = d_next d.
 Proof.
   intros P lo hi max d i0 Ac I Hhi Hlo.
-  pose proof I as (H1 & Hch & V & C & Hn & He).
+  pose proof I as (H1 & Hch & V & C & Hn & HKl).
   set (c0 := i0 + flen (d_files d)) in *.
   assert (Hlog : log_of d = concat (map file_entries (d_files d)) ++ map row_entry Ac)
     by (rewrite log_of_eq, (fv_entries P (d_cur d) Ac [] V); reflexivity).
@@ -234,7 +246,7 @@ Proof.
     rewrite skipn_app, skipn_all, Nat.sub_diag. cbn [skipn app].
     set (p := N.to_nat (lo - fi)).
     assert (Hp : lo - fi = N.of_nat p) by (unfold p; lia). rewrite Hp.
-    destruct (scan_file_spec P hi max f A' D' p 0 [] V' ltac:(unfold p; lia) Hhi) as (f' & Hs & Vf').
+    destruct (scan_file_spec P hi max f A' D' p 0 [] V' ltac:(unfold p; lia) Hhi) as (f' & Hs & Vf' & Rf').
     rewrite Hs.
     (* the stream of entries from lo on *)
     assert (Hstream : skipn (N.to_nat (lo - i0)) (log_of d)
@@ -250,20 +262,23 @@ Proof.
     assert (Hm1 : forall post', map file_entries post' = map file_entries post ->
                    map file_entries (pre ++ f' :: post') = map file_entries (d_files d)).
     { intros post' Hm. rewrite Hf, !map_app. cbn [map]. rewrite Hm, (fv_entries P f' A' D' Vf'), (fv_entries P f A' D' V'). reflexivity. }
+    assert (Hr1 : forall post', map f_rows post' = map f_rows post ->
+                   map f_rows (pre ++ f' :: post') = map f_rows (d_files d)).
+    { intros post' Hm. rewrite Hf, !map_app. cbn [map]. now rewrite Hm, Rf'. }
     assert (Hc1 : forall post', chain P (fi + N.of_nat (length A')) post' -> chain P i0 (pre ++ f' :: post')).
     { intros post' Hc. apply chain_app. split; [exact Hpre|]. cbn [chain]. fold fi. exists A', D'. auto. }
     destruct st1.
-    + destruct (dinv_replace P i0 d Ac (pre ++ f' :: post) (d_cur d) I (Hc1 post Hpost) (Hm1 post eq_refl) V) as [I' L'].
+    + destruct (dinv_replace P i0 d Ac (pre ++ f' :: post) (d_cur d) I (Hc1 post Hpost) (Hm1 post eq_refl) (Hr1 post eq_refl) V) as [I' L'].
       eexists. split; [rewrite rev_append_nil; reflexivity|]. auto.
-    + destruct (scan_files_spec P hi max post (fi + N.of_nat (length A')) sz1 ac1 Hpost Hhi) as (post' & Hs2 & Hpost' & Hm2).
+    + destruct (scan_files_spec P hi max post (fi + N.of_nat (length A')) sz1 ac1 Hpost Hhi) as (post' & Hs2 & Hpost' & Hm2 & Hr2).
       rewrite Hs2. rewrite take_scan_app.
       destruct (take_scan hi max sz1 ac1 (concat (map file_entries post))) as [[st2 sz2] ac2] eqn:ET2. cbn [fst snd].
       destruct st2.
-      * destruct (dinv_replace P i0 d Ac (pre ++ f' :: post') (d_cur d) I (Hc1 post' Hpost') (Hm1 post' Hm2) V) as [I' L'].
+      * destruct (dinv_replace P i0 d Ac (pre ++ f' :: post') (d_cur d) I (Hc1 post' Hpost') (Hm1 post' Hm2) (Hr1 post' Hr2) V) as [I' L'].
         eexists. split; [rewrite rev_append_nil; reflexivity|]. auto.
-      * destruct (scan_file_spec P hi max (d_cur d) Ac [] 0%nat sz2 ac2 V (Nat.le_0_l _) Hhi) as (c' & Hs3 & Vc').
+      * destruct (scan_file_spec P hi max (d_cur d) Ac [] 0%nat sz2 ac2 V (Nat.le_0_l _) Hhi) as (c' & Hs3 & Vc' & _).
         cbn [skipn N.of_nat] in Hs3. rewrite Hs3.
-        destruct (dinv_replace P i0 d Ac (pre ++ f' :: post') c' I (Hc1 post' Hpost') (Hm1 post' Hm2) Vc') as [I' L'].
+        destruct (dinv_replace P i0 d Ac (pre ++ f' :: post') c' I (Hc1 post' Hpost') (Hm1 post' Hm2) (Hr1 post' Hr2) Vc') as [I' L'].
         eexists. split; [rewrite rev_append_nil; reflexivity|]. auto.
   - (* the range starts in the current file (or beyond the end) *)
     assert (Hstream : skipn (N.to_nat (lo - i0)) (log_of d) = map row_entry (skipn (N.to_nat (lo - c0)) Ac)).
@@ -274,23 +289,44 @@ Proof.
         by (rewrite Hlp; unfold c0; lia).
       apply skipn_map_row. }
     rewrite Hstream.
+    assert (Hcase : (Ac = [] /\ d_files d <> []) \/ (Ac = [] -> d_files d = [])).
+    { destruct (nil_or_not Ac) as [E1|E1]; [|right; congruence].
+      destruct (nil_or_not (d_files d)) as [E2|E2]; [right; auto|left; auto]. }
+    destruct Hcase as [[EA0 Ef0]|He].
+    { (* the current file is empty but older files exist: the search ends in the newest rotated file, behind its last
+         entry; nothing is read *)
+      destruct (exists_last Ef0) as (pre & f & Hf).
+      destruct (slot_ge_files_beyond P d i0 Ac I EA0 pre f lo Hf ltac:(fold c0; lia)) as (A & D & Vf & HAf & Cf & Hsg).
+      unfold all_entries. rewrite Hsg, Hf, firstn_app, firstn_all, Nat.sub_diag. cbn [firstn]. rewrite app_nil_r.
+      rewrite skipn_app, skipn_all, Nat.sub_diag. cbn [skipn app].
+      destruct (scan_file_spec P hi max f A D (length A) 0 [] Vf (le_n _) Hhi) as (f' & Hs & Vf' & Rf').
+      rewrite Hs, skipn_all. cbn [map take_scan fst snd scan_files].
+      destruct (scan_file_spec P hi max (d_cur d) Ac [] 0%nat 0 [] V (Nat.le_0_l _) Hhi) as (c' & Hs3 & Vc' & _).
+      cbn [skipn N.of_nat] in Hs3. rewrite Hs3. rewrite EA0. rewrite !skipn_nil. cbn [map take_scan fst snd rev_append rev].
+      assert (Hch' : chain P i0 (pre ++ [f'])).
+      { rewrite Hf in Hch. apply chain_app in Hch as [Hpre _]. apply chain_app. split; [exact Hpre|]. cbn [chain]. exists A, D. auto. }
+      assert (Hm : map file_entries (pre ++ [f']) = map file_entries (d_files d)).
+      { rewrite Hf, !map_app. cbn [map]. now rewrite (fv_entries P f' A D Vf'), (fv_entries P f A D Vf). }
+      assert (Hr : map f_rows (pre ++ [f']) = map f_rows (d_files d)) by (rewrite Hf, !map_app; cbn [map]; now rewrite Rf').
+      destruct (dinv_replace P i0 d Ac (pre ++ [f']) c' I Hch' Hm Hr Vc') as [I' L'].
+      rewrite EA0 in I'. eexists. split; [reflexivity|]. auto. }
     assert (Hsel : exists p, (p <= length Ac)%nat /\ skipn p Ac = skipn (N.to_nat (lo - c0)) Ac
                              /\ (slot_ge P d lo = (InCur, Some (N.of_nat p)) \/ (p = 0%nat /\ slot_ge P d lo = (InCur, None)))).
     { destruct (nil_or_not Ac) as [EA|EA].
       - exists 0%nat. rewrite EA. split; [cbn; lia|]. split; [now rewrite !skipn_nil|]. right. split; [reflexivity|].
-        exact (slot_ge_empty P d i0 Ac I EA lo).
+        exact (slot_ge_empty P d i0 Ac I EA (He EA) lo).
       - destruct (lo <? c0 + N.of_nat (length Ac)) eqn:E2.
         + exists (N.to_nat (lo - c0)). split; [lia|]. split; [reflexivity|]. left.
           rewrite (slot_ge_cur_inside P d i0 Ac I lo) by (fold c0; lia). fold c0. f_equal. f_equal. lia.
         + exists (length Ac). split; [lia|]. split; [rewrite !skipn_all2 by lia; reflexivity|]. left.
           now rewrite (slot_ge_cur_beyond P d i0 Ac I lo EA) by (fold c0; lia). }
     destruct Hsel as (p & Hp & Hsk & Hsel).
-    destruct (scan_file_spec P hi max (d_cur d) Ac [] p 0 [] V Hp Hhi) as (c' & Hs & Vc').
+    destruct (scan_file_spec P hi max (d_cur d) Ac [] p 0 [] V Hp Hhi) as (c' & Hs & Vc' & _).
     assert (Hres : all_entries P lo hi max d
                    = (rev_append (snd (take_scan hi max 0 [] (map row_entry (skipn p Ac)))) [],
                       mkdisk (d_files d) c' (d_next d) (d_meta d))).
     { unfold all_entries. destruct Hsel as [->|[E0 ->]]; [rewrite Hs; reflexivity|]. subst p. cbn [N.of_nat] in Hs. rewrite Hs. reflexivity. }
     rewrite Hres, rev_append_nil, Hsk.
-    destruct (dinv_replace P i0 d Ac (d_files d) c' I Hch eq_refl Vc') as [I' L'].
+    destruct (dinv_replace P i0 d Ac (d_files d) c' I Hch eq_refl eq_refl Vc') as [I' L'].
     eexists. split; [reflexivity|]. auto.
 Qed.
